@@ -6,6 +6,7 @@ import abbr_gen as g
 import c01_lex as lex
 import c01_routes as routes
 import c01_rare as rare
+import c01_optshapes as optshapes
 from markup_util import run_cases, canon_cfg
 
 CONFIGS = [{}, {'syntax': 'xml'}, {'options': {'output.selfClosingStyle': 'xhtml'}},
@@ -38,6 +39,7 @@ NUMBERING_AT_OPERATORS = True   # generator class "numbering tokens in identifie
 CALL_ROUTES = True           # generator class "every documented call route x global-config layers for the type / the syntax" on / off
 RARE_SYNTAX = True           # generator classes "every documented form of the attribute set on a nameless element", "text nodes / `{}` / `[]` in every position before every operator", "statements whose last groups are not closed yet" on / off (harness/c01_rare.py; `{}` / `[]` directly before `>`: c01_rare.EMPTY_NODE_CHILDREN)
 LONG_LIVED_CONFIG = True     # generator class "ONE Config / dict object over a sequence of calls, its context / options re-assigned in between" on / off
+OPTION_VALUE_TYPES = True    # generator class "the same configuration in every VALUE TYPE a Python caller may hand over (name collections as tuple / set / frozenset / dict keys / deque ..., mappings as OrderedDict / MappingProxyType / UserDict ..., str subclasses / str Enums, 1 / 0)" on / off (harness/c01_optshapes.py)
 
 
 # listed finding: a nameless element directly below an EMPTY nameless unit (`{}` / `[]`) takes its implicit name from that unit
@@ -546,6 +548,35 @@ def call_routes(ctx):
     ctx.cov['call_route_cases'] = len(cases)
 
 
+def option_value_types(ctx):
+    """The tree does not depend on the Python TYPE in which a configuration value is handed over, as long as the value
+    offers what the documented type offers (harness/c01_optshapes.py): the inline-element collection as list / tuple /
+    set / frozenset / dict / keys view / OrderedDict / deque / Counter / caller-defined container, in every layer; the
+    config, its options, its context, the global config and its entries as every mapping type; syntax and self-closing
+    style as str subclass / str Enum member; format as True / False / 1 / 0.  Implementation + property oracle only
+    (the extracted model is fed the resolved configuration encoded from the documented types)."""
+    use_documented_inline()
+    names, snips = vocabulary()
+    parents_ok = [n for n, void in implicit_parents() if not void]
+    block = [n for n in BLOCK_PARENTS if n in parents_ok]
+    cases = optshapes.shape_cases(ctx, names, HTML_INLINE_DOC, dict(g.IMPLICIT_DOC), block, parents_ok,
+                                  400 if ctx.tier == 'quick' else 8000)
+    for route, abbr, user, glob, meta in cases:
+        r = optshapes.run_shape(route, abbr, user, glob)
+        ctx.count_eval()
+        ctx.nontrivial('%s@%s|%s|%s' % (abbr, route, canon_cfg(user), canon_cfg(glob))) if len(meta) >= 2 else None
+        bad = oracle(abbr, user, meta, r)
+        if bad:
+            ctx.property_failure('C01:optshape:%s|%s|%s|%s' % (route, abbr, canon_cfg(user), canon_cfg(glob)),
+                                 'C01 %s with abbr=%r config=%s global=%s: %s' % (route, abbr[:300], optshapes.show(user)[:600], optshapes.show(glob)[:600], bad),
+                                 {'component': 'C01-optshape', 'route': route, 'abbr': abbr, 'config_spec': user, 'global_spec': glob,
+                                  'config_python': optshapes.show(user), 'global_python': optshapes.show(glob),
+                                  'meta': meta, 'impl': repr(r)[:500], 'why': bad})
+    ctx.cov['option_value_type_cases'] = len(cases)
+    ctx.cov['option_value_types'] = {'collections': optshapes.COLLECTION_SHAPES, 'mappings': optshapes.MAPPING_SHAPES,
+                                     'mapping_positions': optshapes.MAPPING_SPOTS, 'strings': optshapes.STRING_SHAPES}
+
+
 def rare_parents():
     """Parents of the nameless elements of the rare-syntax classes: every documented mapped parent, some documented
     inline elements, block / unknown names."""
@@ -700,6 +731,24 @@ def run(ctx):
                        'i.e. without the closing `)` (`w>(x>{}+y`): may be rejected with a positioned error, otherwise the tree must be '
                        'the denoted one; cases with one denotation that must be accepted go through implementation + extracted model + '
                        'oracle, `[]` cases and open groups through implementation + oracle only; '
+                       'option value types (optshape:*, harness/c01_optshapes.py): the SAME configuration in every Python type that offers '
+                       'what the documented type offers -- (1) the inline-element collection (the documented default list, the list '
+                       'plus custom names, a small custom list, the empty collection) as list / tuple / set / frozenset / dict with the '
+                       'names as keys / dict keys view / OrderedDict / deque / Counter / a caller-defined container (membership, '
+                       'iteration, length only), written in the call config, in the global entry of the syntax or in the global entry '
+                       'of the type, with nameless elements below names of the collection, mapped parents, block parents and documented '
+                       'inline names that are NOT in the collection, as direct child, below a repeated parent, in a group, after a '
+                       'climb, two nameless levels; (2) the tree-neutral name collections output.formatSkip / output.formatForce / '
+                       'output.booleanAttributes in the same ten types; (3) the call config, its options, its context, the global '
+                       'config, a global entry and the options of a global entry each as dict / OrderedDict / defaultdict / read-only '
+                       'MappingProxyType / UserDict / ChainMap (context: top-level nameless elements named after it); (4) syntax and '
+                       'output.selfClosingStyle as instance of a str subclass / member of a str-valued Enum, output.format as True / '
+                       'False / 1 / 0; (5) random statements (40%% nameless) under random mixtures of all of these; all through the '
+                       'five call routes in rotation, syntaxes html / xhtml / xml; configurations are stored in replay files as a '
+                       'spec ({"$": type, "v": content}) and rebuilt for the call; never generated: a plain string as name '
+                       'collection (substring search, meaning not documented), one-shot iterators, non-string names; judged by '
+                       'implementation + property oracle only (the extracted model is fed the resolved configuration encoded from '
+                       'the documented types; not sent through it); '
                        'non-trivial = denotes at least two elements; distinct by abbreviation text. Oracle: element tree of '
                        'the output (tag parser) = independent denotation of the AST (inline-ness from the hard-coded documented list). '
                        'Excluded shapes: ")>" (child of a group).' % (DEEP_MAX - 10, DEEP_MAX - 10, MODEL_INDENT_BUDGET, 'on' if rare.EMPTY_NODE_CHILDREN else 'off'))
@@ -720,6 +769,8 @@ def run(ctx):
         call_routes(ctx)
     if LONG_LIVED_CONFIG:
         long_lived(ctx)
+    if OPTION_VALUE_TYPES:
+        option_value_types(ctx)
     for (abbr, cfg, exp), r in list(zip(cases, impl))[200:204]:
         ctx.sample({'abbr': abbr, 'config': cfg, 'denoted': exp[:8], 'output': r[1][:120] if r[0] == 'ok' else r})
 
@@ -762,6 +813,13 @@ def replay(ctx, obj):
         r = routes.run_route(rp['route'], rp['abbr'], rp['config'], rp['global'])
         bad = oracle(rp['abbr'], rp['config'], [tuple(x) for x in rp['meta']], r)
         print('%s: abbr=%r config=%r global=%r -> %s : %s' % (rp['route'], rp['abbr'], rp['config'], rp['global'], repr(r)[:600], bad or 'property holds'))
+        return 1 if bad else 0
+    if rp.get('component') == 'C01-optshape':
+        # the configuration is stored as a spec (harness/c01_optshapes.py: {"$": type, "v": content}) and rebuilt here
+        r = optshapes.run_shape(rp['route'], rp['abbr'], rp['config_spec'], rp['global_spec'])
+        bad = oracle(rp['abbr'], rp['config_spec'], [tuple(x) for x in rp['meta']], r)
+        print('%s: abbr=%r config=%s global=%s -> %s : %s' % (rp['route'], rp['abbr'], optshapes.show(rp['config_spec']),
+                                                             optshapes.show(rp['global_spec']), repr(r)[:600], bad or 'property holds'))
         return 1 if bad else 0
     if rp.get('component') == 'C01-rare':
         r = impl_expand(rp['abbr'], rp['config'])
